@@ -177,7 +177,7 @@ def scenario_leg(ctx, exhaustive):
     from hugr.build.dfg import Dfg
 
     ch = ctx.ch
-    which = ch.draw(7, "scenario")
+    which = ch.draw(8, "scenario")
     B, Q = tys.Bool, tys.Qubit
     ctx.profile = {"leg": "scenario", "scenario": which}
     if which == 0:
@@ -311,6 +311,34 @@ def scenario_leg(ctx, exhaustive):
         probe_handle(ctx, inner.parent_node, n_out, "dfg-closed-after-stray-output-link", exhaustive)
         node = next(c for c in d.hugr.children(d.parent_node) if c.idx == inner.parent_node.idx)
         probe_handle(ctx, node, n_out, "children()-after-stray-output-link", False)
+        return
+    if which == 7:
+        # (h) a detached container builder (the root of its own HUGR) is a handle too: once its outputs are set it
+        # enumerates them, before and after it is inserted somewhere
+        from hugr.build.cfg import Cfg
+        from hugr.build.cond_loop import Conditional, TailLoop
+        kind = ch.pick(["dfg", "tailloop", "conditional", "cfg"], "container")
+        n_out = ch.draw(4, "n-out")
+        if kind == "dfg":
+            b = Dfg(B)
+            b.set_outputs(*[b.inputs()[0]] * n_out)
+        elif kind == "tailloop":
+            b = TailLoop([], [B] * n_out)
+            b.set_loop_outputs(b.add_op(ops.Tag(1, tys.Sum([[], []]))), *b.inputs())
+        elif kind == "conditional":
+            b = Conditional(tys.Bool, [])
+            for k in (0, 1):
+                with b.add_case(k) as c:
+                    c.set_outputs(*[c.load(val.TRUE) for _ in range(n_out)])
+        else:
+            b = Cfg(*[B] * n_out)
+            with b.add_entry() as e:
+                e.set_single_succ_outputs(*e.inputs())
+            b.branch_exit(e[0])
+        ctx.ev(0, f"detached {kind} with {n_out} outputs finished")
+        ctx.steps += 2
+        ctx.probe("detached_root_builder_as_handle")
+        probe_handle(ctx, b.parent_node, n_out, f"detached-{kind}-root", exhaustive)
         return
     if which == 6:
         # (g) size class: a container is opened, many siblings are added after it, only then are its outputs set
